@@ -1,159 +1,37 @@
-(* ---- HList.v (prototype) : HandlerList of src/handler.rs:449-508 ---- *)
-From Coq Require Import List Arith Lia Sorted.
+(* HList.v : HandlerList of src/handler.rs:449-508 — executable definitions only.
+   Entries are handler keys; the three priority segments are delimited by the two
+   cursors [before] and [after].  Theorems are in HListProofs.v. *)
+From Coq Require Import List NArith Bool.
 Import ListNotations.
+Require Import EV.Base.
 
 Inductive prio := High | Medium | Low.
-Section HL.
-Variable pr : nat -> prio.            (* priority of the handler with addition number h *)
-Record hl := mkHl { before : nat; after : nat; entries : list nat }.
-Definition hl_new := mkHl 0 0 [].
+Definition prio_eqb (a b : prio) := match a, b with High, High | Medium, Medium | Low, Low => true | _, _ => false end.
 
-Definition insert_at (n : nat) (h : nat) (l : list nat) := firstn n l ++ h :: skipn n l.
-Definition hl_insert (l : hl) (h : nat) : hl :=
-  match pr h with
-  | High => mkHl (before l + 1) (after l + 1) (insert_at (before l) h (entries l))
-  | Medium => mkHl (before l) (after l + 1) (insert_at (after l) h (entries l))
-  | Low => mkHl (before l) (after l) (entries l ++ [h])
+Section HL.
+Context {H : Type}.
+Variable heqb : H -> H -> bool.
+
+Record hlist := mkHl { hl_before : N; hl_after : N; hl_entries : list H }.
+Definition hl_new : hlist := mkHl 0 0 [].
+
+(* handler.rs:465-485 *)
+Definition hl_insert (l : hlist) (h : H) (p : prio) : hlist :=
+  match p with
+  | High => mkHl (hl_before l + 1) (hl_after l + 1) (ninsert (hl_entries l) (hl_before l) h)
+  | Medium => mkHl (hl_before l) (hl_after l + 1) (ninsert (hl_entries l) (hl_after l) h)
+  | Low => mkHl (hl_before l) (hl_after l) (hl_entries l ++ [h])
   end.
-Fixpoint position (h : nat) (l : list nat) : option nat :=
-  match l with
-  | [] => None
-  | x :: t => if Nat.eqb x h then Some 0 else option_map S (position h t)
-  end.
-Definition hl_remove (l : hl) (h : nat) : hl :=
-  match position h (entries l) with
+
+(* handler.rs:487-506 *)
+Definition hl_remove (l : hlist) (h : H) : hlist :=
+  match nposition (heqb h) (hl_entries l) with
   | Some idx =>
-      let e := firstn idx (entries l) ++ skipn (S idx) (entries l) in
-      if idx <? after l
-      then mkHl (if idx <? before l then before l - 1 else before l) (after l - 1) e
-      else mkHl (before l) (after l) e
+      let e := nremove (hl_entries l) idx in
+      if idx <? hl_after l
+      then mkHl (if idx <? hl_before l then hl_before l - 1 else hl_before l) (hl_after l - 1) e
+      else mkHl (hl_before l) (hl_after l) e
   | None => l
   end.
-
-Definition seg (p : prio) (X : list nat) := Forall (fun h => pr h = p) X /\ StronglySorted lt X.
-Definition HlInv (l : hl) : Prop :=
-  exists H M L, entries l = H ++ M ++ L /\ before l = length H /\ after l = length H + length M /\
-                seg High H /\ seg Medium M /\ seg Low L.
-
-Lemma firstn_len {A} (X Y : list A) : firstn (length X) (X ++ Y) = X.
-Proof. rewrite firstn_app, firstn_all, Nat.sub_diag. cbn. apply app_nil_r. Qed.
-Lemma skipn_len {A} (X Y : list A) : skipn (length X) (X ++ Y) = Y.
-Proof. rewrite skipn_app, skipn_all, Nat.sub_diag. reflexivity. Qed.
-
-Lemma seg_snoc p X h : seg p X -> pr h = p -> (forall x, In x X -> x < h) -> seg p (X ++ [h]).
-Proof.
-  intros [Hf Hs] Hp Hlt. split.
-  - apply Forall_app. split; [auto|constructor; auto].
-  - induction X as [|x X IH]; cbn; [repeat constructor|].
-    inversion Hs; subst. inversion Hf; subst. constructor.
-    + apply IH; auto. intros y Hy. apply Hlt. now right.
-    + apply Forall_app. split; [auto|constructor; [apply Hlt; now left|constructor]].
-Qed.
-
-Ltac hl_split := split; [|split; [|split; [|split; [|split]]]].
-
-Lemma insert_inv l h : HlInv l -> (forall x, In x (entries l) -> x < h) -> HlInv (hl_insert l h).
-Proof.
-  intros (H & M & L & He & Hb & Ha & SH & SM & SL) Hnew. unfold hl_insert.
-  assert (inH : forall x, In x H -> x < h) by (intros; apply Hnew; rewrite He; apply in_or_app; auto).
-  assert (inM : forall x, In x M -> x < h) by (intros; apply Hnew; rewrite He; apply in_or_app; right; apply in_or_app; auto).
-  assert (inL : forall x, In x L -> x < h) by (intros; apply Hnew; rewrite He; apply in_or_app; right; apply in_or_app; auto).
-  destruct (pr h) eqn:Ep; cbn [before after entries].
-  - exists (H ++ [h]), M, L. unfold insert_at. rewrite He, Hb, firstn_len, skipn_len, app_length. cbn.
-    hl_split; [now rewrite <- app_assoc|lia|lia|apply seg_snoc; auto|exact SM|exact SL].
-  - exists H, (M ++ [h]), L. unfold insert_at. rewrite He, Ha, app_assoc, <- app_length, firstn_len, skipn_len, !app_length. cbn.
-    hl_split; [now rewrite <- !app_assoc|lia|lia|exact SH|apply seg_snoc; auto|exact SL].
-  - exists H, M, (L ++ [h]). rewrite He. cbn [before after entries].
-    hl_split; [now rewrite <- !app_assoc|lia|lia|exact SH|exact SM|apply seg_snoc; auto].
-Qed.
-
-Lemma position_split h : forall l idx, position h l = Some idx ->
-  exists X Y, l = X ++ h :: Y /\ length X = idx.
-Proof.
-  induction l as [|x t IH]; intros idx Hp; cbn in Hp; [discriminate|].
-  destruct (Nat.eqb_spec x h) as [->|Hne].
-  - inversion Hp; subst. exists [], t. auto.
-  - destruct (position h t) as [j|] eqn:Ej; [|discriminate]. inversion Hp; subst.
-    destruct (IH _ eq_refl) as (X & Y & -> & Hl). exists (x :: X), Y. cbn. auto.
-Qed.
-
-Lemma seg_remove p X Y h : seg p (X ++ h :: Y) -> seg p (X ++ Y).
-Proof.
-  intros [Hf Hs]. split.
-  - apply Forall_app in Hf as [F1 F2]. inversion F2; subst. apply Forall_app; auto.
-  - induction X as [|x X IH]; cbn in *.
-    + now inversion Hs.
-    + inversion Hs; subst. inversion Hf; subst. constructor; [apply IH; auto|].
-      apply Forall_app in H2 as [G1 G2]. inversion G2; subst. apply Forall_app; auto.
-Qed.
-
-(* splitting X ++ h :: Y = H ++ M ++ L by where position idx = length X falls *)
-Lemma app_split_at {A} (X Y P Q : list A) (h : A) : X ++ h :: Y = P ++ Q ->
-  (exists P2, P = X ++ h :: P2 /\ Y = P2 ++ Q) \/ (exists Q1, X = P ++ Q1 /\ Q = Q1 ++ h :: Y).
-Proof.
-  revert P. induction X as [|x X IH]; intros P E; cbn in E.
-  - destruct P as [|p P]; cbn in E.
-    + right. exists []. auto.
-    + inversion E; subst. left. exists P. auto.
-  - destruct P as [|p P]; cbn in E.
-    + right. exists (x :: X). auto.
-    + inversion E; subst. destruct (IH _ H1) as [(P2 & -> & ->)|(Q1 & -> & ->)].
-      * left. exists P2. auto.
-      * right. exists Q1. auto.
-Qed.
-
-Lemma remove_inv l h : HlInv l -> HlInv (hl_remove l h).
-Proof.
-  intros (H & M & L & He & Hb & Ha & SH & SM & SL). unfold hl_remove.
-  destruct (position h (entries l)) as [idx|] eqn:Ep; [|exists H, M, L; hl_split; auto].
-  destruct (position_split _ _ _ Ep) as (X & Y & Hxy & Hlen).
-  assert (Hrem : firstn idx (entries l) ++ skipn (S idx) (entries l) = X ++ Y).
-  { rewrite Hxy, <- Hlen, firstn_len. f_equal.
-    replace (X ++ h :: Y) with ((X ++ [h]) ++ Y) by now rewrite <- app_assoc.
-    replace (S (length X)) with (length (X ++ [h])) by (rewrite app_length; cbn; lia). apply skipn_len. }
-  rewrite Hrem. rewrite He in Hxy. symmetry in Hxy.
-  destruct (app_split_at _ _ _ _ _ Hxy) as [(H2 & EH & EY)|(Q1 & EX & EQ)].
-  - (* h in the High segment *)
-    subst H Y. rewrite app_length in Hb, Ha. cbn in Hb, Ha.
-    assert (idx <? after l = true) as -> by (apply Nat.ltb_lt; lia).
-    assert (idx <? before l = true) as -> by (apply Nat.ltb_lt; lia).
-    exists (X ++ H2), M, L. cbn [before after entries]. rewrite app_length.
-    hl_split; [now rewrite <- app_assoc|lia|lia|eapply seg_remove; eauto|exact SM|exact SL].
-  - symmetry in EQ. destruct (app_split_at _ _ _ _ _ EQ) as [(M2 & EM & EY)|(L1 & EQ1 & EL)].
-    + (* h in the Medium segment *)
-      subst X M Y. rewrite !app_length in *. cbn in Ha.
-      assert (idx <? after l = true) as -> by (apply Nat.ltb_lt; lia).
-      assert (idx <? before l = false) as -> by (apply Nat.ltb_ge; lia).
-      exists H, (Q1 ++ M2), L. cbn [before after entries]. rewrite app_length.
-      hl_split; [now rewrite <- !app_assoc|lia|lia|exact SH|eapply seg_remove; eauto|exact SL].
-    + (* h in the Low segment *)
-      subst X Q1 L. rewrite !app_length in *.
-      assert (idx <? after l = false) as -> by (apply Nat.ltb_ge; lia).
-      exists H, M, (L1 ++ Y). cbn [before after entries].
-      hl_split; [now rewrite <- !app_assoc|lia|lia|exact SH|exact SM|eapply seg_remove; eauto].
-Qed.
-
-(* the order every delivery iterates in: High before Medium before Low, each by addition number *)
-Definition rank (p : prio) := match p with High => 0 | Medium => 1 | Low => 2 end.
-Definition before_in_order (a b : nat) := rank (pr a) < rank (pr b) \/ (rank (pr a) = rank (pr b) /\ a < b).
-
-Theorem hl_sorted l : HlInv l -> StronglySorted before_in_order (entries l).
-Proof.
-  intros (H & M & L & -> & _ & _ & [FH SH] & [FM SM] & [FL SL]).
-  assert (G : forall p X, Forall (fun h => pr h = p) X -> StronglySorted lt X ->
-              forall Z, Forall (fun z => rank p < rank (pr z)) Z -> StronglySorted before_in_order Z ->
-              StronglySorted before_in_order (X ++ Z)).
-  { intros p X. induction X as [|x X IH]; intros FX SX Z FZ SZ; cbn; [auto|].
-    pose proof (Forall_inv FX) as Px. pose proof (Forall_inv_tail FX) as FX'. cbn beta in Px.
-    apply StronglySorted_inv in SX as [SX' Lx]. constructor; [apply IH; auto|].
-    apply Forall_app. split.
-    - rewrite Forall_forall in *. intros y Hy. right. split; [now rewrite Px, (FX' _ Hy)|auto].
-    - rewrite Forall_forall in *. intros z Hz. left. rewrite Px. auto. }
-  apply (G High); auto.
-  - apply Forall_app. split; rewrite Forall_forall in *; intros z Hz; [rewrite (FM _ Hz)|rewrite (FL _ Hz)]; cbn; lia.
-  - apply (G Medium); auto.
-    + rewrite Forall_forall in *. intros z Hz. rewrite (FL _ Hz). cbn. lia.
-    + rewrite <- (app_nil_r L). apply (G Low); auto. constructor.
-Qed.
 End HL.
-Check hl_sorted. Print Assumptions hl_sorted. Print Assumptions insert_inv. Print Assumptions remove_inv.
+Arguments hlist : clear implicits.
